@@ -157,6 +157,31 @@ def run(case):
         # an extra isolated node (it is a source and a sink: the one-node route through it is a genuine route)
         iso = dict(use0, nodes=list(use0["nodes"]) + ["z9"], node_w=dict(use0["node_w"], z9=2))
         add("isolated_node", iso, {}, {})
+    if not case.get("single") and A:
+        # the input graph also carries the attribute on its ORIGINAL arcs (a file with both kinds of values): in node mode the arcs
+        # are ignored, so nothing may change - a large value on every arc, and a negative one on the first arc
+        big = dict(use0, arcs=[[x[0], x[1], 7] for x in use0["arcs"]])
+        neg = dict(use0, arcs=[[x[0], x[1], (-2 if i == 0 else None)] for i, x in enumerate(use0["arcs"])])
+        add("stray_arc_values=7", big, {}, {})
+        add("stray_arc_value=-2", neg, {}, {})
+        if cls in ("MinFlowDecomp", "MinFlowDecompCycles"):
+            for oname, oo in (("guessed", {"optimize_with_guessed_weights": True, "optimize_with_greedy": False}),
+                              ("mingenset", {"use_min_gen_set_lowerbound": True, "optimize_with_greedy": False})):
+                if cyc:
+                    oo = {k_: v_ for k_, v_ in oo.items() if k_ != "optimize_with_greedy"}
+                add(f"stray_arc_values=7,{oname}", big, {"optimization_options": dict(oo)}, {"optimization_options": dict(oo)})
+                add(f"stray_arc_value=-2,{oname}", neg, {"optimization_options": dict(oo)}, {"optimization_options": dict(oo)})
+            # a value-less source u, its successor v carrying 2 less than it needs, and -2 on the arc (u, v): explained only if the stray -2 is
+            # taken for a route weight (the guessed weights are read from every arc that has the attribute)
+            srcs = [v_ for v_ in V if not any(e_[1] == v_ for e_ in A)]
+            for (u_, v_) in [e_ for e_ in A if e_[0] in srcs][:2]:
+                if use0["node_w"][v_] is None or use0["node_w"][u_] is None or use0["node_w"][v_] - use0["node_w"][u_] < 3:
+                    continue
+                d = dict(use0, node_w=dict(use0["node_w"]), arcs=[[x[0], x[1], (-2 if (x[0], x[1]) == (u_, v_) else None)] for x in use0["arcs"]])
+                d["node_w"][v_] -= d["node_w"][u_] + 2   # what the other routes bring, minus 2
+                d["node_w"][u_] = None
+                oo = {"optimize_with_guessed_weights": True}
+                add(f"stray_negative_route_weight:{u_}{v_}", d, {"optimization_options": dict(oo)}, {"optimization_options": dict(oo)})
     if not case.get("single"):
         for v in V[:3]:
             d = dict(use0, node_w=dict(use0["node_w"]))
